@@ -2113,7 +2113,7 @@ func suiteEngineFacts(c *Ctx) {
 		}
 	}
 	// no `go` statement in the engine's api package or the rest package (handlers run on the request's goroutine)
-	var handlerGo, allGo []string
+	var handlerGo, allGo, detached []string
 	var lockSites []string
 	var serveHTTPs, serves []string
 	for _, d := range factsDirs {
@@ -2158,6 +2158,10 @@ func suiteEngineFacts(c *Ctx) {
 						switch x.Sel.Name {
 						case "Lock", "Unlock", "RLock", "RUnlock", "TryLock", "TryRLock":
 							lockSites = append(lockSites, fn+":"+fExprText(x.X)+"."+x.Sel.Name)
+						case "TimeoutHandler", "AfterFunc", "WithTimeout", "WithDeadline", "WithCancel":
+							// library helpers that run (or abandon) work on another goroutine: a handler started through one
+							// of them can outlive the request lock although no `go` statement appears in crem's own source
+							detached = append(detached, fn+":"+fExprText(x.X)+"."+x.Sel.Name)
 						}
 					case *ast.CompositeLit:
 						if se, ok := x.Type.(*ast.SelectorExpr); ok && fExprText(se) == "http.Server" {
@@ -2415,6 +2419,8 @@ func suiteEngineFacts(c *Ctx) {
 	emit("servehttp-unique", "servehttp="+join(serveHTTPs)+" serves="+join(serves))
 	emit("lock-sites", join(lockSites))
 	emit("go-statements", join(allGo))
+	sort.Strings(detached)
+	emit("detached-execution", join(detached))
 	emit("startup", "bootstrap="+bootstrap+" start-before-go="+join(beforeGo))
 	emit("handlers", strings.TrimSuffix(fmt.Sprintf("own=%d %s", nOwn, strings.Join(handlerFacts, " ")), " "))
 	emit("locksets", join(locksetFacts))
